@@ -78,6 +78,12 @@ def make_index(kind, backend, w, odb, tag):
             for dk in dirs:
                 put(base + dk, meta=Meta(isdir=True), loaded=True)
     idx.storage_map.add_cache(ObjectStorage((), odb))
+    # registered after the root: a nested prefix served by the same store, and a prefix that no entry lives under,
+    # served by another (empty) store - neither may change where the other entries find their data
+    from ..lab import make_odb as _mk
+
+    idx.storage_map.add_cache(ObjectStorage(("e", "n"), odb))
+    idx.storage_map.add_cache(ObjectStorage(("zz-elsewhere",), _mk("local", w.p("elsewhere-store"))))
     if backend != "mem":
         idx.commit()
     return idx
